@@ -30,11 +30,12 @@ Definition fs_reserved : list name :=
     [115;117;98;115;99;114;105;112;116;105;111;110;115];
     [115;117;98;115;99;114;105;112;116;105;111;110;115;46;108;111;99;107] ]%N.
 
-(* _BaseLayout._valid_part and the two overrides *)
+(* _BaseLayout._valid_part (control characters, DEL and lone surrogates
+   U+D800..U+DFFF are refused) and the two overrides *)
 Definition valid_part_base (p : name) : bool :=
   negb (name_eqb p [] || name_eqb p s_dot || name_eqb p s_dotdot)
   && negb (existsb (fun c => (c =? DELIM)%N) p)
-  && negb (existsb (fun c => (c <? 32)%N || (c =? 127)%N) p).
+  && negb (existsb (fun c => (c <? 32)%N || (c =? 127)%N || ((55296 <=? c) && (c <=? 57343))%N) p).
 
 Definition valid_part (l : layout) (p : name) : bool :=
   match l with
